@@ -305,7 +305,7 @@ class Verdict:
                 n += 1
                 path = os.path.join(self.wd, "replay-%s-%d.json" % (label or "x", n))
                 with open(path, "w") as fh:
-                    json.dump({"property": self.prop, "stage": label, "behaviour": r["steps"], "table": r["table"],
+                    json.dump({"property": self.prop, "stage": label, "behaviour": r.get("steps", []), "table": r["table"],
                                "adapter": r["adapter"], "divergence": d}, fh, indent=1)
                 if len(self.violations) < 5:
                     self.violations.append(("%s: %s query=%s expected=%s actual=%s" % (
